@@ -42,6 +42,48 @@ EXTRA["C11"] = [
       ["C11.9"], "n of a redeem script is the key count, OP_n unchecked"),
 ]
 
+EXTRA["C12"] = [
+    M("merkle-root-cached-blind", "taproot.py", "        # create a TapLeaf from the tap_script and the tapleaf version in the control block\n        leaf = TapLeaf(tap_script, self.tapleaf_version)\n",
+      "        if getattr(self, \"_mr\", None) is not None:\n            return self._mr\n        leaf = TapLeaf(tap_script, self.tapleaf_version)\n        self._mr = leaf.hash()\n",
+      ["C12.6", "C12.1"], "a value computed from tap_script is cached on the control block and returned for any later script"),
+    M("leaf-eq-ignores-version", "taproot.py", "            and self.tapleaf_version == other.tapleaf_version\n", "", ["C12.7"], "leaves with the same script and different versions are equal"),
+    T("leaf-eq-via-hash", "taproot.py", "        return (\n            type(self) is type(other)\n            and self.tapleaf_version == other.tapleaf_version\n            and self.tap_script == other.tap_script\n        )\n",
+      "        return type(self) is type(other) and self.hash() == other.hash()\n", ["C12.7"], "equality through the commitment itself"),
+]
+
+EXTRA["C13"] = [
+    M("checksigadd-guarded-by-k", "taproot.py", "        if len(points) > 1:\n            for xonly in xonlys[1:]:\n", "        if k > 1:\n            for xonly in xonlys[1:]:\n",
+      ["C13.5"], "1-of-n leaf lists only the first key"),
+    T("checksigadd-guarded-by-xonlys", "taproot.py", "        if len(points) > 1:\n            for xonly in xonlys[1:]:\n", "        if len(xonlys) >= 2:\n            for xonly in xonlys[1:]:\n",
+      ["C13.5"], "same guard on the sorted list"),
+    M("musig-negation-wrong-parity", "taproot.py", "            if external_pubkey.parity:\n                s = (-s_sum - challenge * tweak) % N\n",
+      "            if external_pubkey.parity != self.point.parity:\n                s = (-s_sum - challenge * tweak) % N\n", ["C13.6"], "negation decided relative to the untweaked key"),
+]
+
+EXTRA["C16"] = [
+    M("path-normalised", "descriptor.py", "            xfp_hex = key_record.get(\"xfp\")\n", "            path = path.lower().replace(\"'\", \"h\")\n            xfp_hex = key_record.get(\"xfp\")\n",
+      ["C16.2"], "origin path rewritten before text and checksum"),
+    M("change-branch-constant", "descriptor.py", "            if is_change is True:\n                account = key_record[\"account_index\"] + 1\n            else:\n                account = key_record[\"account_index\"]\n",
+      "            account = 1 if is_change else key_record[\"account_index\"]\n", ["C16.5"], "change branch hard-coded to 1"),
+    M("pub-child-top-index", "hd.py", "        if index >= 0x80000000:\n            raise ValueError(\"child number should always be less than 2^31\")\n",
+      "        if index >= 0x7FFFFFFF:\n            raise ValueError(\"child number should always be less than 2^31\")\n", ["C16.7"], "index 2^31-1 rejected"),
+]
+
+EXTRA["C19"] = [
+    M("falsy-default-height", "compactfilter.py", "    def __init__(self, filter_type=BASIC_FILTER_TYPE, start_height=1, stop_hash=None):\n        self.filter_type = filter_type\n        self.start_height = start_height\n",
+      "    def __init__(self, filter_type=BASIC_FILTER_TYPE, start_height=None, stop_hash=None):\n        self.filter_type = filter_type\n        self.start_height = start_height or 1\n",
+      ["C19.9"], "start height 0 replaced by the default"),
+    T("none-default-height", "compactfilter.py", "    def __init__(self, filter_type=BASIC_FILTER_TYPE, start_height=1, stop_hash=None):\n        self.filter_type = filter_type\n        self.start_height = start_height\n",
+      "    def __init__(self, filter_type=BASIC_FILTER_TYPE, start_height=None, stop_hash=None):\n        self.filter_type = filter_type\n        self.start_height = 1 if start_height is None else start_height\n",
+      ["C19.9"], "None is the not-given marker"),
+    M("varint-fd-boundary", "helper.py", "    elif i < 0x10000:\n", "    elif i < 0xFFFF:\n", ["C19.8"], "65535 encoded with the fe tag"),
+]
+
+EXTRA["C14"] = [
+    M("pbkdf2-int-xor", "pbkdf2.py", "            result = binxor(result, U)\n        return result\n",
+      "            result = binxor(result, U)\n        r2 = int.from_bytes(result, \"big\")\n        return r2.to_bytes((r2.bit_length() + 7) // 8, \"big\")\n", ["C14.5"], "block re-encoded with a value-dependent width"),
+]
+
 EXTRA["C03"] = [
     M("field-add-cond-sub-gt", "pecc.py", "        num = (self.num + other.num) % self.prime\n",
       "        num = self.num + other.num\n        if num > self.prime:\n            num -= self.prime\n", ["C03.10"], "sum equal to the prime is not reduced"),
